@@ -127,8 +127,9 @@ def c29_runs(tier):
     q = tier == 'quick'
 
     def add(n, st, items, bound, **k):
-        # the second pipeline needs the harness' per-execution arena (plain build) to be replay-deterministic
-        k.setdefault('again', 1 if k.get('mode', 'plain') == 'plain' else 0)
+        # the second pipeline needs the harness' per-execution arena (plain build) to be replay-deterministic, and it
+        # doubles the length of an execution: not used with two workers at bound >= 1
+        k.setdefault('again', 1 if (k.get('mode', 'plain') == 'plain' and not (n >= 2 and bound >= 1)) else 0)
         dest = san if k.get('mode', 'plain') != 'plain' else (heavy if (n >= 2 and bound >= 1) else runs)
         _run(dest, seen, 29, n, st, items, bound, **k)
     ATS = (0, 1, 2)  # throw at first / middle / last of 3 items
